@@ -83,10 +83,28 @@ func (n *node[T]) buildMethods() {
 	buildMethodIndexes(n.methodIndex)
 }
 
-func (n *node[T]) AllowHeader() string { return methodIndexes[n.methodIndex].options }
+// AllowHeader 当前节点的 Allow 报头内容
+//
+// 处理函数会在匹配结束之后调用此方法，在开启了 lock 的情况下需要获取读锁。
+func (n *node[T]) AllowHeader() string {
+	if l := n.root.locker; l != nil {
+		l.RLock()
+		defer l.RUnlock()
+	}
+	return methodIndexes[n.methodIndex].options
+}
 
 // Methods 当前节点支持的请求方法
-func (n *node[T]) Methods() []string { return methodIndexes[n.methodIndex].methods }
+func (n *node[T]) Methods() []string {
+	if l := n.root.locker; l != nil {
+		l.RLock()
+		defer l.RUnlock()
+	}
+	return n.methods()
+}
+
+// 与 Methods 相同，但是不加锁，调用方需要保证已经持有锁。
+func (n *node[T]) methods() []string { return methodIndexes[n.methodIndex].methods }
 
 // 添加一个处理函数
 func (n *node[T]) addMethods(h T, pattern string, ms []types.Middleware[T], methods ...string) error {
